@@ -124,6 +124,35 @@ def run(res, tier):
             bad.append(dict(info, **desc, X=X.tolist()))
         if len(samples) < 3:
             samples.append(desc)
+    # pure Tikhonov fits that must coincide with Edmd: LmiDmdc on autonomous systems (no input: the reduced matrix is square)
+    for h in range(4 if tier == 'quick' else 24):
+        ns = 2 + h % 2; nu = 0
+        X, _, _ = lmi.linear_data(rng, ns, nu, kind='stable', n_eps=2, length=12, noise=0.05)
+        mk = lambda: L.LmiDmdc(alpha=0.0, reg_method='tikhonov', solver_params=lmi.SOLVER)  # noqa
+        label = 'LmiDmdc on an autonomous system'
+        Psi, Thp = pairs(X, nu)
+        if np.linalg.cond(Psi) > 200:
+            continue
+        try:
+            reg = mk().fit(X, n_inputs=nu, episode_feature=True)
+            e = pykoop.Edmd(alpha=0.0).fit(X, n_inputs=nu, episode_feature=True)
+        except Exception:  # noqa
+            dist['fit_error'] = dist.get('fit_error', 0) + 1
+            continue
+        if getattr(reg, 'solution_status_', 'optimal') != 'optimal':
+            dist['not_optimal_status'] = dist.get('not_optimal_status', 0) + 1
+            continue
+        dist['tikhonov_vs_edmd_sweep'] = dist.get('tikhonov_vs_edmd_sweep', 0) + 1
+        f = lambda V: doc_cost(V, Psi, Thp, 0.0, 0.0, 'tikhonov', False)  # noqa
+        if reg.coef_.shape != e.coef_.shape:
+            bad.append(dict(what='with pure Tikhonov regularisation the result does not have the shape of the Edmd result',
+                            estimator=label, X=X.tolist()))
+            continue
+        c_u, c_e = f(reg.coef_.T), f(e.coef_.T)
+        d = float(np.max(np.abs(e.coef_ - reg.coef_)))
+        if c_u > c_e + 1e-3 * max(1e-3, abs(c_e)) or coef_far(d, e.coef_, Psi, 0.0, c_e):
+            bad.append(dict(what='with pure Tikhonov regularisation the result does not coincide with Edmd', estimator=label,
+                            cost=c_u, cost_edmd=c_e, coef_difference=d, X=X.tolist()))
     # every way of handling the Gram-matrix inverse, on data whose Gram matrix makes pivoting
     # factorizations permute rows: all seven must give the Edmd optimum
     n_sweep = 3 if tier == 'quick' else 25
